@@ -32,7 +32,8 @@ RULE = (
     "neighbouring threshold (mass matching needed); 25% of the cases are made inconsistent on purpose (wrong side "
     "of the mass, wrong side of the coupling reference, masses that come out unsorted); one case in four calls "
     "msbar_masses.evolve directly between two (scale, nf) points in their natural patches (or on the wall just "
-    "crossed) at unit ratios. Exhaustive part: the "
+    "crossed) at unit ratios, or crosses one matching scale up and back down (orders 3-4, ratio in [0.5,2], at "
+    "alpha_s, alpha_s/2, alpha_s/4). Exhaustive part: the "
     "decoupling tables for nl = 3,4,5. Non-trivial = QCD order >= 2 and Q_m != m for at least one quark (or a "
     "table case); distinct by case."
 )
@@ -50,6 +51,13 @@ ASSUMPTIONS = [
     "msbar_masses.evolve is additionally called directly (natural nf at origin and target, unit ratios, xif = 1) "
     "and compared with the same harness model, so the across-threshold behaviour is decided even while "
     "compute() cannot run",
+    "self-consistency of the two code paths (every quark, any ratios / xif): evolve(m_ref^2, Q_m^2, Couplings built "
+    "as compute does, matching, xif2, q2_to = returned m^2, nf at Q_m by the returned masses, target patch) must "
+    "return the computed m^2 within 1e-6 (only fsolve, xtol 1.5e-8, lies in between; clean tree: <= 4e-14)",
+    "round trip: up x down - 1 must be beyond the order of the decoupling relation; flagged only if it exceeds "
+    "5 u^2 (u = U - 1; the clean tree gives exactly -u^2) AND its measured exponent in a_s(threshold) between "
+    "alpha_s/2 and alpha_s/4 is below order - 0.3; the in-patch running must cancel on a round trip within 1e-7 "
+    "(clean tree 7e-16)",
     "the fixed-point oracle is applied only when Q_m lies in the adjoining patch by both readings of its edge "
     "(neighbour mass and neighbour mass x matching ratio) with a 1e-6 margin; beyond it only at unit matching "
     "ratios and xif = 1, where the position of the mass matching point is unambiguous (mu = m_h, L = 0)",
@@ -66,6 +74,8 @@ LEVEL_TEXT = (
 
 _RESIDUALS = None  # calibration hook (set to a list by a calibration script; never used by the runner)
 TOL_EXACT = 1e-5
+TOL_SELF = 1e-6  # compute vs evolve on m^2: same kernels on both sides, only fsolve (xtol 1.5e-8) in between
+TOL_INPATCH = 1e-7
 TOL_EXPANDED = 1e-6
 EDGE_MARGIN = 1e-6
 MZ = 91.2
@@ -195,7 +205,7 @@ def strategy(tier):
         method = draw(st.sampled_from(["exact", "expanded"]))
         nf_ref = draw(st.integers(3, 6))
         plain = draw(st.integers(0, 2)) == 0  # unit ratios and xif: thresholds unambiguous
-        xif = 1.0 if plain else draw(unit_or(0.5, 2.0))
+        xif = 1.0 if plain else draw(st.one_of(st.floats(0.5, 2.0), st.floats(0.5, 2.0), st.just(1.0)))
         ratios = [1.0] * 3 if plain else [draw(unit_or(0.5, 2.0)) for _ in range(3)]
         lowx = min(xif, 1.0)
         # keep the charm matching scale (as seen by the coupling: m_c * ratio * xif) perturbative too
@@ -309,7 +319,23 @@ def strategy(tier):
             "m": _lo_mass(t, qf, amz),
         }
 
-    return st.one_of(build(), build(), build(), build_evolve())
+    @st.composite
+    def build_roundtrip(draw):
+        order = draw(st.sampled_from([4, 4, 3]))
+        method = draw(st.sampled_from(["expanded", "exact"]))
+        walls = [draw(st.floats(1.4, 1.9)), draw(st.floats(4.0, 5.0)), draw(st.floats(150.0, 180.0))]
+        hq = draw(st.integers(0, 2))
+        ratios = [1.0, 1.0, 1.0]
+        ratios[hq] = draw(st.floats(1.0 if hq == 0 else 0.5, 2.0))
+        if draw(st.integers(0, 5)) == 0:
+            ratios[hq] = 1.0
+        return {
+            "kind": "roundtrip", "order": order, "method": method, "nf_ref": 5, "qref": 91.2,
+            "alphas": draw(st.floats(0.110, 0.125)), "walls": walls, "ratios": ratios, "hq": hq,
+            "xif": draw(st.sampled_from([1.0, 1.0, draw(st.floats(0.7, 1.5))])),
+        }
+
+    return st.one_of(build(), build(), build(), build_evolve(), build_roundtrip())
 
 
 def enumerate_cases(tier):
@@ -456,6 +482,34 @@ def _running_mass_unit_ratios(case, sc, i, m2, nf_t, mu2_to):
     return model_evolve(case["method"], case["order"], sc, m2, m, q2, nf, mu2_to, nf_t)
 
 
+def _self_consistency(res, case, sc, matching, xif2, i, nf_t, out, label):
+    """The property itself, between the two code paths: the public ``evolve`` run from (m_ref, Q_m) to the
+    returned mass with the same coupling, order, matching ratios and xif must land on the returned mass
+    (every quark, also beyond the adjoining patch, any ratios / xif)."""
+    from eko import msbar_masses as mm
+
+    m, q = case["masses"][i]
+    q2 = q * q
+    if any(abs(q2 / w - 1.0) < EDGE_MARGIN for w in out):
+        return  # nf at the reference scale not well defined
+    nf_at_ref = 3 + sum(1 for w in out if q2 > w)
+    try:
+        back = float(mm.evolve(m * m, q2, sc, list(matching), xif2, out[i], nf_ref=nf_at_ref, nf_to=nf_t))
+    except Exception as e:  # noqa: BLE001
+        res.fail(exc_bucket(f"{ID}/self-consistency/call", e), f"{e!r} for quark {i + 4}; case={case}")
+        return
+    rel = abs(back / out[i] - 1.0)
+    res.classes.append("selfcheck/" + label + ("/xif!=1" if case["xif"] != 1.0 else ""))
+    if _RESIDUALS is not None:
+        _RESIDUALS.append((case["method"], "self-consistency/" + label, case["order"], float(rel)))
+    if not rel <= TOL_SELF:
+        res.fail(
+            f"{ID}/self-consistency/compute-vs-evolve/{'far' if label == 'far' else 'near'}",
+            f"quark {i + 4}: compute returned m^2 = {out[i]!r}, but evolve(m_ref^2, Qm^2, coupling, matching, xif2, "
+            f"q2_to=m^2, nf_ref={nf_at_ref}, nf_to={nf_t}) = {back!r} (rel. diff {rel:.3e} > {TOL_SELF}); case={case}",
+        )
+
+
 def check_masses(case):
     import numpy as np
 
@@ -515,10 +569,13 @@ def check_masses(case):
     xif2 = case["xif"] ** 2
     unit = case["xif"] == 1.0 and all(r == 1.0 for r in case["ratios"])
     tol = TOL_EXACT if method == "exact" else TOL_EXPANDED
+    matching = [r**2 for r in case["ratios"]]
     for i, (m, q) in enumerate(case["masses"]):
         label, nf_t = _mode(case, i, out)
         res.classes.append(f"quark/{label}")
         big_m = math.sqrt(out[i])
+        if label != "equal":
+            _self_consistency(res, case, sc, matching, xif2, i, nf_t, out, label)
         if label == "equal":
             if abs(out[i] - m * m) > 1e-14 * m * m:
                 res.fail(f"{ID}/equal-mode", f"quark {i + 4} given at Qm = m = {m} came back as {big_m}")
@@ -706,9 +763,77 @@ def check_evolve(case):
     return res
 
 
+def _crossing(case, alphas):
+    """(u, remainder at the threshold, remainder of a round trip through the patches, a_s^(nf+1)(threshold))."""
+    from eko import msbar_masses as mm
+    from eko.couplings import Couplings
+    from eko.quantities.couplings import CouplingEvolutionMethod, CouplingsInfo
+    from eko.quantities.heavy_quarks import QuarkMassScheme
+
+    order, hq = case["order"], case["hq"]
+    xif2 = case["xif"] ** 2
+    ratios2 = [r * r for r in case["ratios"]]
+    walls2 = [w * w for w in case["walls"]]
+    info = CouplingsInfo.from_dict(dict(alphas=alphas, alphaem=0.007496252, ref=(case["qref"], case["nf_ref"])))
+    sc = Couplings(info, order=(order, 0), method=CouplingEvolutionMethod(case["method"]), masses=walls2,
+                   hqm_scheme=QuarkMassScheme.MSBAR, thresholds_ratios=[r * xif2 for r in ratios2])
+    nf = hq + 3
+    thr = walls2[hq] * ratios2[hq] * xif2 * ratios2[hq]  # where evolve() itself switches nf -> nf+1
+    m2 = 7.0
+    up = mm.evolve(m2, thr, sc, ratios2, xif2, thr, nf_ref=nf, nf_to=nf + 1)
+    back = mm.evolve(up, thr, sc, ratios2, xif2, thr, nf_ref=nf + 1, nf_to=nf)
+    q_lo, q_hi = thr / 3.0, thr * 5.0
+    up2 = mm.evolve(m2, q_lo, sc, ratios2, xif2, q_hi, nf_ref=nf, nf_to=nf + 1)
+    back2 = mm.evolve(up2, q_hi, sc, ratios2, xif2, q_lo, nf_ref=nf + 1, nf_to=nf)
+    a_s = float(sc.a(thr * xif2, nf + 1)[0])
+    return float(up / m2 - 1.0), float(back / m2 - 1.0), float(back2 / m2 - 1.0), a_s
+
+
+def check_roundtrip(case):
+    """Upward and downward crossing are the two directions of one decoupling relation: U*D - 1 = O(a_s^order)."""
+    res = CaseResult()
+    order = case["order"]
+    r = case["ratios"][case["hq"]]
+    res.nontrivial = bool(r != 1.0)
+    res.classes = [f"roundtrip/order={order}", f"roundtrip/hq={case['hq'] + 4}",
+                   "roundtrip/ratio=1" if r == 1.0 else "roundtrip/ratio!=1", f"roundtrip/method={case['method']}"]
+    try:
+        u1, rem1, rt1, a1 = _crossing(case, case["alphas"])
+        # local exponent measured between alpha_s/2 and alpha_s/4 (closer to the asymptotic power)
+        _u2, rem2, _rt2, a2 = _crossing(case, case["alphas"] / 2.0)
+        _u3, rem3, _rt3, a3 = _crossing(case, case["alphas"] / 4.0)
+    except Exception as e:  # noqa: BLE001
+        res.fail(exc_bucket(f"{ID}/roundtrip/call", e), f"{e!r} for {case}")
+        return res
+    if _RESIDUALS is not None:
+        _RESIDUALS.append((case["method"], "roundtrip/in-patch", order, abs(rt1 - rem1)))
+        _RESIDUALS.append((case["method"], "roundtrip/rem-over-u2", order, abs(rem1) / u1**2 if u1 else 0.0))
+    # in-patch running cancels on a round trip: only the two matchings remain
+    if abs(rt1 - rem1) > TOL_INPATCH:
+        res.fail(f"{ID}/roundtrip/in-patch/method={case['method']}",
+                 f"round trip mu_thr/3 -> 5 mu_thr -> mu_thr/3 leaves {rt1:.3e}, crossing at the threshold {rem1:.3e}; case={case}")
+    # remainder must be of the order beyond the decoupling relation: natural size u^2 (exactly -u^2 when the two
+    # directions use the same expansion parameter); a violation needs both a too large remainder and a measured
+    # exponent under a rescaling of alpha_s(ref) (measured between 1/2 and 1/4) clearly below the working order
+    big = abs(rem1) > 5.0 * u1**2 + 1e-13
+    if big and rem2 != 0.0 and rem3 != 0.0 and a2 != a3:
+        expo = math.log(abs(rem2) / abs(rem3)) / math.log(a2 / a3)
+        res.classes.append("roundtrip/exponent-measured")
+        if expo < order - 0.3:
+            res.fail(
+                f"{ID}/roundtrip/up-down/order={order}",
+                f"up x down - 1 = {rem1:.3e} = {rem1 / u1**2:.1f} u^2 (u = {u1:.3e}) and it scales like a_s^{expo:.2f} "
+                f"(a_s(thr) {a2:.5f} -> {a3:.5f}: {rem2:.3e} -> {rem3:.3e}); the two directions are not mutually "
+                f"inverse through a_s^{order - 1}; case={case}",
+            )
+    return res
+
+
 def check_case(case):
     if case["kind"] == "decoupling":
         return check_decoupling(case)
+    if case["kind"] == "roundtrip":
+        return check_roundtrip(case)
     if case["kind"] == "evolve":
         return check_evolve(case)
     return check_masses(case)
